@@ -168,7 +168,14 @@ def one_history(ctx, hid, nops):
             ctx.count("ctor_sizes:%d" % k)
         elif r < 0.62 and mods:                                 # state from module=
             k = int(rng.integers(0, 3))
-            mi = int(rng.integers(0, len(mods)))
+            # only documented combinations are generated: module is a BinaryRBM for Positive/Complex states and a
+            # PurificationRBM for DensityMatrix (the property says nothing about other combinations, so nothing is demanded)
+            want_t = "PurificationRBM" if k == 2 else "BinaryRBM"
+            cand = [i for i, mm in enumerate(mods) if type(mm).__name__ == want_t]
+            if not cand:
+                ctx.count("ctor_module:no_module_of_documented_type")
+                continue
+            mi = int(cand[int(rng.integers(0, len(cand)))])
             m = mods[mi]
             before = snap(m)
             s = None
